@@ -172,6 +172,52 @@ pub fn c10_atan2_axis_dual2_dualvec() {
     cover!(true);
 }
 
+/// nested type Dual<Dual64, f64>: the real part of the result is itself a dual number and must
+/// carry the inner derivative; the outer part and the mixed part follow from the chain rule.
+/// Concrete points on the axis (loop), the parts of the vanishing coordinate symbolic.
+#[cfg_attr(kani, kani::proof)]
+#[cfg_attr(kani, kani::unwind(8))]
+#[cfg_attr(kani, kani::stub(f64::atan2, uf::atan2))]
+#[cfg_attr(kani, kani::stub(f64::atan, uf::atan))]
+pub fn c10_atan2_axis_nested_x_zero() {
+    type DD = Dual<Dual64, f64>;
+    let (c, d) = (small_int64(4), small_int64(4));
+    let (a, b) = (3.0, -2.0);
+    for &p in [0.5, -2.0].iter() {
+        for &z in [0.0, -0.0].iter() {
+            // x = +-0 with inner part c and outer part d; y = p with inner part a, outer part b
+            let y = DD::new(Dual64::new(p, a), Dual64::new(b, 0.0));
+            let x = DD::new(Dual64::new(z, c), Dual64::new(d, 0.0));
+            let r = y.atan2(x);
+            assert!(r.re.eps == -c / p);
+            assert!(r.eps.re == -d / p);
+            assert!(r.eps.eps.is_finite() && r.eps.eps == (c * b + a * d) / (p * p));
+        }
+    }
+    cover!(c != 0.0 && d != 0.0);
+}
+
+#[cfg_attr(kani, kani::proof)]
+#[cfg_attr(kani, kani::unwind(8))]
+#[cfg_attr(kani, kani::stub(f64::atan2, uf::atan2))]
+#[cfg_attr(kani, kani::stub(f64::atan, uf::atan))]
+pub fn c10_atan2_axis_nested_y_zero() {
+    type DD = Dual<Dual64, f64>;
+    let (c, d) = (small_int64(4), small_int64(4));
+    let (a, b) = (3.0, -2.0);
+    for &p in [0.5, -2.0].iter() {
+        for &z in [0.0, -0.0].iter() {
+            // y = +-0 with parts (c, d); x = p with parts (a, b): theta_s = y_s / x
+            let r2 = DD::new(Dual64::new(z, c), Dual64::new(d, 0.0))
+                .atan2(DD::new(Dual64::new(p, a), Dual64::new(b, 0.0)));
+            assert!(r2.re.eps == c / p);
+            assert!(r2.eps.re == d / p);
+            assert!(r2.eps.eps.is_finite() && r2.eps.eps == -(c * b + d * a) / (p * p));
+        }
+    }
+    cover!(c != 0.0 && d != 0.0);
+}
+
 // ---------------------------------------------------------------- exp_m1, ln_1p at zero
 #[cfg_attr(kani, kani::proof)]
 #[cfg_attr(kani, kani::unwind(8))]
@@ -273,6 +319,8 @@ pub const LIST: &[(&str, fn())] = &[
     ("c10_powf_zero_noninteger_above_order", c10_powf_zero_noninteger_above_order),
     ("c10_atan2_axis_dual64", c10_atan2_axis_dual64),
     ("c10_atan2_axis_dual2_dualvec", c10_atan2_axis_dual2_dualvec),
+    ("c10_atan2_axis_nested_x_zero", c10_atan2_axis_nested_x_zero),
+    ("c10_atan2_axis_nested_y_zero", c10_atan2_axis_nested_y_zero),
     ("c10_expm1_ln1p_zero_dual3", c10_expm1_ln1p_zero_dual3),
     ("c10_sph_j_zero_dual3", c10_sph_j_zero_dual3),
     ("c10_sph_j_zero_leaf_and_dual", c10_sph_j_zero_leaf_and_dual),
